@@ -1,0 +1,21 @@
+//go:build verif
+
+package agent
+
+// Machine-checked contracts for /verif (govc). Comment-only, compiled only
+// with -tags verif; changes no behaviour.
+
+// ---- C21: the SOCKS5 server is never built without authentication when it is enabled ----
+
+//@ func (*Agent).buildSOCKS5Auth
+//@ prop C21
+//@ ensures a.cfg.SOCKS5.Auth.Enabled ==> len(result) >= 1
+//@ ensures a.cfg.SOCKS5.Auth.Enabled ==> forall i in 0..len(result): !istype(result[i], *socks5.NoAuthAuthenticator)
+
+//@ func (*Agent).initComponents
+//@ prop C21
+//@ at call socks5.NewServer assert a.cfg.SOCKS5.Auth.Enabled ==> len($0.Authenticators) >= 1
+//@ at call socks5.NewServer assert a.cfg.SOCKS5.Auth.Enabled ==> forall i in 0..len($0.Authenticators): !istype($0.Authenticators[i], *socks5.NoAuthAuthenticator)
+
+//@ census[C21] socks5.NewServer in (*Agent).initComponents
+//@ census[C21] socks5.NewHandler in -
